@@ -142,7 +142,7 @@ var DqCore = []string{Dq[0], Dq[1], Dq[2], Dq[3], Dq[6], Dq[7], Dq[12], Dq[13]}
 
 // alphabets of the depth-3 phases: full first operation, reduced second and third
 var (
-	midLevel  = &AlphaCfg{Values: v2, ReplValues: v1n}
+	midLevel  = &AlphaCfg{Values: v2, ReplValues: []*rj.Value{patchValues[2], patchValues[5]}} // replace by null and by {"k":null}
 	lastLevel = &AlphaCfg{Values: v1n, ReplValues: v1n, Kinds: kinds("test", "remove", "copy", "move")}
 )
 
@@ -154,7 +154,7 @@ func deepPhase(p *seqProp, first *AlphaCfg, docs []string) *seqProp {
 	m, l := *midLevel, *lastLevel
 	m.NoRootAdd, l.NoRootAdd = first.NoRootAdd, first.NoRootAdd
 	d.Alpha = []*AlphaCfg{first, &m, &l}
-	d.Rule = "DEPTH 3 on " + fmt.Sprint(len(docs)) + " core documents: full alphabet for the first operation, {1,null} values for the second, {test, remove, copy, move} for the third; same oracle"
+	d.Rule = "DEPTH 3 on " + fmt.Sprint(len(docs)) + " core documents: full alphabet for the first operation, {1,null} values (replace: null, {\"k\":null}) for the second, {test, remove, copy, move} for the third; same oracle"
 	return &d
 }
 
@@ -336,6 +336,7 @@ func init() {
 		legacy := &seqProp{ID: "C12", Legacy: true, Docs: small, Opts: limOpts, Depth: 2,
 			Alpha: []*AlphaCfg{{Values: vals[:1], ReplValues: vals[:1], Kinds: kinds("copy", "add", "remove"), NoRootAdd: true}, {Kinds: kinds("copy"), NoRootAdd: true}}, Judge: judgeC12Fixed,
 			Rule: "legacy package global AccumulatedCopySizeLimit: every limit 0..N x all sequences <= depth on 2 documents, same oracle (sizes with HTML escaping, which the legacy encoder always applies)"}
+		var extra []*seqProp
 		if tier == "thorough" {
 			// depth 3 with per-call limits (the limit window is recomputed per sequence); the package-level
 			// configurations keep depth 2 over all limits 0..64 and get depth 3 for five limits
@@ -351,9 +352,14 @@ func init() {
 			d3.Alpha = []*AlphaCfg{sa, tail, tail}
 			l3.Alpha = []*AlphaCfg{legacy.Alpha[0], legacy.Alpha[1], legacy.Alpha[1]}
 			d3.Rule, l3.Rule = "v5 package default, DEPTH 3, limits {0,5,13,21,40}", "legacy package global, DEPTH 3, limits {0,5,13,21,40}"
-			return []*seqProp{perCall, defaults, legacy, &d3, &l3}
+			extra = []*seqProp{&d3, &l3}
 		}
-		return []*seqProp{perCall, defaults, legacy}
+		// copy ; replace the whole document ; copy - the running total must survive a root replacement
+		rootVals := parseAll([]string{`{"q":[]}`, `[[]]`})
+		viaRoot := &seqProp{ID: "C12", Docs: docs, Opts: []r69.Options{{Neg: true, EscapeHTML: true}}, Depth: 3,
+			Alpha: []*AlphaCfg{tail, {Values: rootVals, ReplValues: rootVals, Kinds: kinds("add", "replace"), RootOnly: true}, {Kinds: kinds("copy", "add"), Values: vals[:1]}}, Judge: judgeC12,
+			Rule: "v5 per-call option, DEPTH 3 of the shape copy ; add/replace of the whole document ; copy-or-add: the running total carries over a root replacement (limits around every total as in the first phase)"}
+		return append([]*seqProp{perCall, defaults, legacy, viaRoot}, extra...)
 	}, 150*time.Second, 25*time.Minute)
 }
 
@@ -369,6 +375,20 @@ func init() {
 		}
 		small := parseAll([]string{`{}`, `{"a":1}`, `1`, `{"a":{"x":1,"z":2}}`, `{"x":1,"y":2,"z":3}`, `[1]`})
 		_ = v1
+		// "echo" edges: the patch repeats (part of) the document byte for byte, with values longer than
+		// any short-cut threshold - a null inside the repeated object must still delete
+		var echoDocs []*rj.Value
+		pad := rj.NewStr(strings.Repeat("p", 80))
+		for _, w := range wide {
+			if !rj.HasNullMember(w) {
+				continue
+			}
+			inner := rj.Clone(w)
+			inner.O = append([]rj.Member{{Name: "pad", V: pad}}, inner.O...)
+			echoDocs = append(echoDocs, rj.NewObj(rj.Member{Name: "a", V: inner}, rj.Member{Name: "k", V: rj.NewNum("1")}),
+				rj.NewObj(rj.Member{Name: "b", V: rj.NewObj(rj.Member{Name: "a", V: rj.Clone(inner)})}))
+		}
+		runMergeEdges(ctx, "C02", false, echoDocs, echoDocs, mergeCfg{})
 		if tier == "quick" {
 			v3 := famV3()
 			runMergeEdges(ctx, "C02", false, v3, v3, mergeCfg{})
